@@ -81,12 +81,12 @@ def walk_family(obj, dcls, lcls, path=(), out=None, depth=0):
         if isinstance(plain, dict):
             if type(child) is not dcls:
                 out.append(("wrong-family", "container at %r is %s, expected %s" % (path + (k,), type(child).__name__, dcls.__name__)))
-            elif hasattr(child, "_load"):
+            elif env.is_synced(child):
                 walk_family(child, dcls, lcls, path + (k,), out, depth + 1)
         elif isinstance(plain, list):
             if type(child) is not lcls:
                 out.append(("wrong-family", "container at %r is %s, expected %s" % (path + (k,), type(child).__name__, lcls.__name__)))
-            elif hasattr(child, "_load"):
+            elif env.is_synced(child):
                 walk_family(child, dcls, lcls, path + (k,), out, depth + 1)
     return out
 
@@ -99,7 +99,7 @@ def deepest(obj, path=()):
         return best
     for k in keys:
         child = obj[k]
-        if hasattr(child, "_load") and callable(child):
+        if env.is_synced(child):
             cand = deepest(child, path + (k,))
             if len(cand[0]) > len(best[0]):
                 best = cand
